@@ -6,14 +6,17 @@
   * a specification to which no rule applies is defined without error;
   * after a failed decoration the class object is exactly as before (`touched = []`).
 
-  Two readings the statement leaves open are accepted either way (`MayRule`): a *field-level*
+  Readings the statement leaves open are accepted either way (`MayRule`): a *field-level*
   `on_setattr=setters.NO_OP` on a frozen class (attrs rejects any field-level on_setattr there, although
   NO_OP is no hook), and `define(on_setattr=hook)` on a class that has its own `__setattr__` below a frozen
   base (the own method hides the inherited frozenness, yet `define` looks at the bases).
 
-  One rejection of the pinned code is *outside* the table and therefore a listed deviation (K15a):
-  `str=True` on a class for which no `__repr__` is generated (`repr=False`, or an auto-detected own
-  `__repr__`) raises ValueError.
+  `str=True` on a class that ends up without any `__repr__` of its own (none generated: `repr=False`, and none
+  written in the class body) is rejected with ValueError; attrs's tests assert this for `repr=False, str=True`.
+  The combination is contradictory in itself ("a `__str__` identical to `__repr__`" without a `__repr__`), so
+  "otherwise valid" is read as not covering it; it is not in the statement's table either, so the rejection is
+  accepted, not demanded (third `MayRule`).  Before the repair recorded as K15a an own `__repr__` found by
+  auto_detect was rejected too although a `__repr__` existed; that case is now demanded to define.
 -/
 import AttrsModel.Model.C15
 
@@ -191,13 +194,15 @@ def Rule.applies (c : Case) : Rule → Bool
 inductive MayRule where
   | fieldNoopOnFrozen
   | defineHooksBelowFrozenHidden
+  | strWithoutAnyRepr
   deriving DecidableEq, Repr, Inhabited
 
-def MayRule.all : List MayRule := [.fieldNoopOnFrozen, .defineHooksBelowFrozenHidden]
+def MayRule.all : List MayRule := [.fieldNoopOnFrozen, .defineHooksBelowFrozenHidden, .strWithoutAnyRepr]
 
 def MayRule.applies (c : Case) : MayRule → Bool
   | .fieldNoopOnFrozen => c.frozenClass && c.attrs.any (fun a => a.onSetattr == .noop)
   | .defineHooksBelowFrozenHidden => c.api == .define && c.baseFrozen && c.ownSetattr && c.userHooks
+  | .strWithoutAnyRepr => c.str && !c.reprGenerated && !c.ownRepr
 
 def MayRule.kind : MayRule → Exc
   | _ => .valueError
@@ -239,11 +244,9 @@ def wf (c : Case) : Bool :=
   (!c.ownEq || c.ownHash) &&
   baseOk c
 
-/-- K15a: `str=True` while no `__repr__` is generated is rejected (ValueError) although the combination is
-    not in the property's table -/
-def strWithoutRepr (c : Case) : Bool := c.str && !c.reprGenerated
-
-def known (c : Case) : List String := if strWithoutRepr c then ["K15a"] else []
+/-- no listed deviation is left (K15a — `str=True` with an own `__repr__` found by auto_detect was rejected —
+    is repaired in attrs; its witness is a corpus regression case) -/
+def known (_ : Case) : List String := []
 
 def check : Check Case Obs := { model := model, spec := spec, wf := wf, known := known }
 
